@@ -564,6 +564,8 @@ fn run_life(world: &Shared, setup: &Setup, steps: &mut u64) -> LifeEnd {
     let metrics = SimMetrics { w: world.clone() };
     let disk = Rc::new(futures::lock::Mutex::new(SimDisk { w: world.clone() }));
     let app_set = Rc::new(futures::lock::Mutex::new(SimAppSet { apps: setup.apps.clone(), system_idx: setup.system_idx }));
+    let disk_rc = disk.clone();
+    let apps_rc = app_set.clone();
     let builder = StateMachineBuilder::new(policy, http, installer, timer, metrics, disk, config, app_set, handler);
 
     let consumer_flag = WakeFlag::new();
@@ -618,6 +620,7 @@ fn run_life(world: &Shared, setup: &Setup, steps: &mut u64) -> LifeEnd {
         setup.client_reqs.iter().map(|_| handle.clone()).collect();
     let mut spare_handle: Option<ControlHandle> = None;
     let mut clients: Vec<ClientFut> = vec![];
+    let mut neighbours: Vec<(u32, LocalBoxFuture<'static, ()>, Arc<WakeFlag>, bool)> = vec![];
     let mut checks_done = 0u32;
     let mut events_received = 0u64;
     let mut sm_gone = false;
@@ -631,6 +634,13 @@ fn run_life(world: &Shared, setup: &Setup, steps: &mut u64) -> LifeEnd {
         let mut w = lock(world);
         let p = w.profile.clone();
         let life = w.life;
+        if w.draws.chance(&format!("L{life}/neighbour"), p.neighbour_permille) {
+            let n = 1 + w.draws.draw(&format!("L{life}/neighbour.n"), 3);
+            for k in 0..n {
+                let at = w.draws.draw(&format!("L{life}/neighbour#{k}/at"), 60);
+                w.triggers.push(Trigger { class: "__neighbour", ordinal: at, client: k as u32, req: 0, delay: 0 });
+            }
+        }
         if handle.is_some() && w.draws.chance(&format!("L{life}/drop_handles"), p.drop_handles_permille) {
             let at = w.draws.draw(&format!("L{life}/drop_handles.at"), 40);
             w.triggers.push(Trigger { class: "__drop_handles", ordinal: at, client: 0, req: 0, delay: 0 });
@@ -680,15 +690,22 @@ fn run_life(world: &Shared, setup: &Setup, steps: &mut u64) -> LifeEnd {
                     let mut w = lock(world);
                     let n = w.ordinal("__completion");
                     let mut hit = vec![];
+                    let mut nb_start: Vec<u32> = vec![];
                     w.triggers.retain(|t| {
                         if (t.class == "__drop_handles" || t.class == "__drop_stream") && t.ordinal == n {
                             hit.push(t.class);
+                            false
+                        } else if t.class == "__neighbour" && t.ordinal == n {
+                            nb_start.push(t.client);
                             false
                         } else {
                             true
                         }
                     });
                     let t = w.vt;
+                    for k in nb_start {
+                        w.push(t, 1, What::NeighbourStart(k));
+                    }
                     for h in hit {
                         if h == "__drop_handles" {
                             w.push(t, 1, What::DropHandles);
@@ -839,6 +856,51 @@ fn run_life(world: &Shared, setup: &Setup, steps: &mut u64) -> LifeEnd {
                     sm_gone = true;
                 }
             }
+            What::NeighbourStart(k) => {
+                advance(world, ev.t);
+                // the embedder's own task takes one of the shared locks, one at a time, and releases it
+                let which = {
+                    let mut w = lock(world);
+                    let life = w.life;
+                    w.stat("proc.neighbour_holds_lock");
+                    w.draws.draw(&format!("L{life}/neighbour#{k}/which"), 2)
+                };
+                let (d, a, wd) = (disk_rc.clone(), apps_rc.clone(), world.clone());
+                let fut: LocalBoxFuture<'static, ()> = async move {
+                    if which == 0 {
+                        let _g = d.lock().await;
+                        let id = {
+                            let _e = EnvGuard::enter();
+                            lock(&wd).new_op("neighbour.hold", None).0
+                        };
+                        Pend::new(&wd, id, ()).await;
+                    } else {
+                        let _g = a.lock().await;
+                        let id = {
+                            let _e = EnvGuard::enter();
+                            lock(&wd).new_op("neighbour.hold", None).0
+                        };
+                        Pend::new(&wd, id, ()).await;
+                    }
+                }
+                .boxed_local();
+                let flag = WakeFlag::new();
+                flag.flag.store(true, Ordering::SeqCst);
+                neighbours.push((k, fut, flag, false));
+            }
+            What::NeighbourPoll(k) => {
+                advance(world, ev.t);
+                if let Some(nb) = neighbours.iter_mut().find(|n| n.0 == k) {
+                    nb.3 = false;
+                    nb.2.flag.store(false, Ordering::SeqCst);
+                    let waker = Waker::from(nb.2.clone());
+                    let mut cx = Context::from_waker(&waker);
+                    if nb.1.as_mut().poll(&mut cx).is_ready() {
+                        nb.0 = u32::MAX;
+                    }
+                }
+                neighbours.retain(|n| n.0 != u32::MAX);
+            }
             What::AdminReconfig(k) => {
                 advance(world, ev.t);
                 let mut w = lock(world);
@@ -855,6 +917,14 @@ fn run_life(world: &Shared, setup: &Setup, steps: &mut u64) -> LifeEnd {
             w.push(t, 2, What::ConsumerPoll);
             consumer_poll_scheduled = true;
         }
+        for nb in neighbours.iter_mut() {
+            if nb.2.flag.swap(false, Ordering::SeqCst) && !nb.3 {
+                let mut w = lock(world);
+                let t = w.vt;
+                w.push(t, 1, What::NeighbourPoll(nb.0));
+                nb.3 = true;
+            }
+        }
         for cf in clients.iter_mut() {
             if cf.flag.flag.swap(false, Ordering::SeqCst) && !cf.poll_scheduled {
                 let mut w = lock(world);
@@ -870,6 +940,7 @@ fn run_life(world: &Shared, setup: &Setup, steps: &mut u64) -> LifeEnd {
         w.tearing_down = true;
     }
     drop(clients);
+    drop(neighbours);
     drop(stream);
     drop(handle);
     drop(client_handles);
